@@ -177,7 +177,13 @@ struct Fingerprint {
     nlive: usize,
     slots: Vec<Option<Vec<Option<u32>>>>,
     syms: Vec<Option<usize>>,
+    /// per pattern of FP_PATTERNS: does ematch_all find anything (a yes/no answer, invariant under renaming and order)
+    has_match: Vec<Option<bool>>,
 }
+
+/// patterns whose explicit slots recur across different e-nodes of one match
+const FP_PATTERNS: [&str; 8] = ["(h (p {1} {2}) (v {1}))", "(h (v {1}) (p {2} {1}))", "(w (p {1} {2}) {1})", "(h (p {1} {2}) (p {3} {1}))",
+    "(h (f {1} {2}) (f {2} {3}))", "(h (f {1} {2}) (v {1}))", "(lam {1} (f {1} {2}))", "(h (p {1} {2}) (p {2} {1}))"];
 
 fn orders(k: usize) -> Vec<Vec<usize>> {
     perms(k)
@@ -528,7 +534,11 @@ impl<'a> PathRun<'a> {
                 }
             }
         }
-        Fingerprint { cls: obs.cls.clone(), nlive: obs.nlive, slots, syms }
+        let has_match = FP_PATTERNS.iter().map(|ptxt| {
+            let pat = Pattern::<T>::parse(&concrete(ptxt, self.nm)).expect("pattern pool must parse");
+            guard(|| !ematch_all(eg, &pat).is_empty()).ok()
+        }).collect();
+        Fingerprint { cls: obs.cls.clone(), nlive: obs.nlive, slots, syms, has_match }
     }
 
     fn compare<N: AnKind>(
@@ -1313,7 +1323,7 @@ fn main() {
                                 site: String::new(),
                                 detail: json!({"other_path": p0, "other_naming": k0, "other_mode": m0,
                                     "nlive": [f0.nlive, f.nlive], "cls_equal": f0.cls == f.cls,
-                                    "slots_equal": f0.slots == f.slots, "syms_equal": f0.syms == f.syms}),
+                                    "slots_equal": f0.slots == f.slots, "syms_equal": f0.syms == f.syms, "matches_equal": f0.has_match == f.has_match}),
                             });
                         }
                         if same_naming { c12 += 1 } else { c11 += 1 }
